@@ -9,6 +9,11 @@ struct std_equal_to_int { char empty; };
 /* ghost record of what the Subject was told */
 size_t g_notify_count; int *g_notify_arg; int g_notify_val; struct Subj *g_notify_on;
 size_t g_eq_calls; int g_old;
+/* specification equality: any verdict; operands and verdict are recorded */
+struct EqStub { char empty; };
+int g_eq_a, g_eq_b; _Bool g_eq_verdict;
+_Bool nondet_bool(void);
+static _Bool EqStub__op_call(struct EqStub *self, int *a, int *b) { g_eq_calls++; g_eq_a = *a; g_eq_b = *b; g_eq_verdict = nondet_bool(); return g_eq_verdict; }
 /* std::equal_to<int>::operator() : standard definition */
 static _Bool std_equal_to_int__op_call(struct std_equal_to_int *self, int *a, int *b) { g_eq_calls++; return *a == *b; }
 #endif
